@@ -49,6 +49,9 @@ func init() {
 	wrap("C01", c01R13, "R13 (added): in answer() and authority() the DS set handed to isZoneSecure / findDS / provenInsecureDelegation can come from the root trust anchors (dsRRFromRootKeys) — an empty set at the root means 'no referral followed yet', never 'insecure'.")
 	wrap("C07", c07R9, "R9 (added): a positive reply is relayed by Resolver.resolve only after its answer section was filtered to the zone that was asked (dnsutil.FilterRRsToZone on resp.Answer) — records a server volunteers about names outside its zone reach neither the client nor the NS-address collector.")
 	wrap("C15", c15R8, "R8 (added): the window of the pooled buffer a message is packed into is zeroed (builtin clear on a slice of packState.buf) before anything is written to it — the library's packers advance over octets they do not write, so an unzeroed pooled buffer shows through inside the payload.")
+	wrap("C19", func(c *Ctx) { c03R10as(c, "C19-R9") }, "R9 (added, F-C19-1 = F-C03-2): the resolver keeps the authority's ECS scope on the reply it hands to the cache (same rule as C03-R10).")
+	wrap("C19", func(c *Ctx) { c03R11as(c, "C19-R10") }, "R10 (added, F-C19-3 = F-C03-3): a background refresh of an unscoped entry carries no client subnet (same rule as C03-R11).")
+	wrap("C20", func(c *Ctx) { c04R11as(c, "C20-R11") }, "R11 (added, F-C20-3 = F-C04-1): DNS64 tells a zero negative TTL from a missing SOA (same rule as C04-R11).")
 	wrap("C13", c13R9, "R9 (added): Resolver.lookup gives up on a zone's remaining servers only for NXDOMAIN — after a failing reply is recorded, every path to the fallback verdict (which the caller turns into a zone failure) goes round the server loop again or crosses Rcode == NameError.")
 	wrap("C13", c13Extra, "R8 (added): a stored failure is turned into a hit (failureEntry.hit) only behind now.Before(<that entry>.retryAfter) — on the Msg and the wire lookup alike — so suppression ends with the backoff.")
 	wrap("C09", c09Extra, "R10 (added): tombstone precedence is unconditional — in the sweep over the loaded state and in the merge loops, the only conditions that may skip a tombstone check are the entry's own Revoked/Removed marker state.")
